@@ -4,8 +4,9 @@
 // is a real Stepper<host> (box-in-box geometry, scripted physics in "bookkeeping mode" with a
 // huge cross section so that every active track interacts in every step).  One transition =
 // one Stepper call with (a) p in {0,1,2} new primaries (two primaries of one call belong to
-// the two DIFFERENT events 0 and 1 = max_events-1; the first event alternates from call to
-// call) and (b) a complete list of interaction outcomes, one per active track, from the
+// the two DIFFERENT events 0 and 1 = max_events-1, injection letters i1/i2, or both to the SAME
+// event, injection letter i3; the first event alternates from call to call) and (b) a
+// complete list of interaction outcomes, one per active track, from the
 // 11-letter alphabet of problems/loop_zoo.hh bk_outcomes_ext():
 //   {die|survive} x {0,1,2 secondaries (gamma / e-)} x {sub-cut secondary}  (letters 0-9) and
 //   "unchanged" (letter a: Interaction::from_unchanged(), the track's secondaries span of the
@@ -68,10 +69,17 @@ static vf::BkOutcome const& letter(int c)
 //---------------------------------------------------------------------------//
 struct StepOp
 {
-    int inject{0};  // primaries handed to this call
+    // injection letter: 0/1/2 = that many primaries (two: DIFFERENT events), 3 = two primaries
+    // of the SAME event (the per-event track counter is bumped twice by one span)
+    int inject{0};
     std::vector<int> choices;  // outcome per interaction query, in query order
 };
 using History = std::vector<StepOp>;
+//! Number of primaries of an injection letter
+static int ninj(int inject)
+{
+    return inject == 3 ? 2 : inject;
+}
 
 static char letter_char(int c)
 {
@@ -483,22 +491,24 @@ struct Sys
             {
                 size_t begin = P->recorder->steps.size();
                 cur_begin = begin;
-                cur_inject = op.inject;
+                int const np = ninj(op.inject);
+                cur_inject = np;
                 ch.script = &op.choices;
                 ch.log.clear();
                 StepperResult res;
                 std::vector<unsigned> events;
-                if (queued_prev + op.inject == cfg.capacity && op.inject > 0)
+                if (queued_prev + np == cfg.capacity && np > 0)
                     out.exact_fit = true;
-                if (op.inject > 0)
+                if (np > 0)
                 {
                     // primary k: kind k%2 (gamma, e-); the first one belongs to event `ev`, the
                     // second to the OTHER event: one span with two different event ids
+                    // (letter 3: both belong to event `ev`)
                     unsigned ev = next_event;
                     std::vector<Primary> prim;
-                    for (int k = 0; k < op.inject; ++k)
+                    for (int k = 0; k < np; ++k)
                     {
-                        unsigned e = k == 0 ? ev : 1 - ev;
+                        unsigned e = (k == 0 || op.inject == 3) ? ev : 1 - ev;
                         events.push_back(e);
                         prim.push_back(P->primary(k % 2, 1.0, {0.2 + 0.1 * k, 0.1, 0.05},
                                                   {k ? 0.0 : 1.0, k ? 1.0 : 0.0, 0}, e));
@@ -889,9 +899,9 @@ static void search(vf::Run& R, Config cfg, int max_depth, int max_primaries, uns
             while (pos < frontier.size() && est < 6000)
             {
                 auto const& node = frontier[pos];
-                for (int inject = 0; inject <= 2; ++inject)
+                for (int inject = 0; inject <= 3; ++inject)
                 {
-                    if (node.primaries + inject > max_primaries)
+                    if (node.primaries + ninj(inject) > max_primaries)
                         continue;
                     if (node.h.empty() && inject == 0)
                         continue;  // nothing to transport
@@ -1041,7 +1051,7 @@ static void search(vf::Run& R, Config cfg, int max_depth, int max_primaries, uns
                 if (times <= 2)
                 {
                     // expand the first two histories of each canon (bisimulation test)
-                    next.push_back({h2, node.primaries + tk.inject, rp.canon, times});
+                    next.push_back({h2, node.primaries + ninj(tk.inject), rp.canon, times});
                 }
             }
             stop_if_asan();
